@@ -17,7 +17,8 @@ CHECKS = {
             "reference-model monitor over random call histories under ASan+UBSan",
             "Runs the real LabeledDirectedGraph<L> (7 label kinds) through tens of thousands of seeded call histories that compose all the mutators, and after EVERY call "
             "compares every structural observer (hasEdge for all pairs, getEdgeNumber, neighbour lists, degrees, adjacency matrix, edges(), vertex iteration) with a "
-            "set-of-pairs model; no-op calls must not even reorder a list. Exploration is the right level: the property quantifies over unbounded histories, which can only be sampled; "
+            "set-of-pairs model; re-adding an existing edge / removing an absent one must not even reorder a list. Every 50th history is a 'scale' history (12-70 vertices, a hub "
+            "collecting 50+ neighbours, hundreds of calls, observed every 8th call) and every 200th a life of 2000-4500 calls on one small object. Exploration is the right level: the property quantifies over unbounded histories, which can only be sampled; "
             "held means 'held on the histories counted in the evidence'.",
             "Trusted: the 60-line std::map model in harness/hist_simple.cpp, the compiler sanitizers. Histories are <= 80 calls on <= 7 vertices."),
     "C02": ("hist", "exploration", "2.C02",
@@ -93,13 +94,15 @@ CHECKS = {
     "C14": ("io", "exploration", "2.C14",
             "byte-for-byte comparison with an independent little-endian encoder; hand-made files; open-failure enumeration",
             "Binary writer output compared byte for byte with the monitor's own encoding for 11 label kinds, length = edges x record size, deterministic reload, == after resize; "
-            "hand-made files with shuffled records; every writer and loader on unopenable paths must throw std::runtime_error.",
+            "hand-made files with shuffled records; graphs over byte-pattern-rich vertex indices (35, 255, 256, 65535, 65536...) and files of 255..8193 edges; every writer and "
+            "loader on unopenable paths - and with openat failures (EACCES, EMFILE, ...) injected by strace on a perfectly openable file - must throw std::runtime_error.",
             "Trusted: independent encoder; the host is little-endian, so the byte-swap branch is not executed (stated in the evidence)."),
     "C15": ("io", "fault_enumeration", "2.C15",
             "every truncation offset of valid files; malformed-text grammar fuzz; ASan+UBSan in-process, fork isolation, memcheck in the thorough tier",
             "Crash points are enumerated completely per file: every cut offset 0..length of valid binary files with label sizes 0,1,2,4,8 must throw or return exactly the complete "
             "records before the cut. Malformed text from a mutation grammar must return a readable graph or throw a std::exception. Inputs that kill the process are re-run in a "
-            "forked child. Fault enumeration fits: the crash points of a given file are finite and all are tried; files and malformed texts are sampled.",
+            "forked child; the truncation cases run a second time under valgrind memcheck (uninitialised reads); an AddressSanitizer allocation-limit abort is re-examined with the "
+            "uninstrumented build under an address-space limit, because the property allows std::bad_alloc. Fault enumeration fits: the crash points of a given file are finite and all are tried; files and malformed texts are sampled.",
             "Trusted: sanitizers / valgrind; vertex numbers in fuzzed text are kept allocatable as the property allows."),
     "C16": ("hist", "exploration", "2.C16",
             "multiset reference model over histories with forced duplicates; == against an unforced replay",
@@ -123,7 +126,9 @@ CHECKS = {
             "work counters on wrapper graph types (logical steps, never wall-clock) over families with exponentially many shortest paths",
             "Wrapper types derive from the real classes and shadow getOutNeighbours with a counter that throws at bound+1; the stated bounds V, V+E, V+E+1 are enforced exactly on "
             "layered graphs (up to 4^40 shortest paths), grids, DAGs, cliques, shortcut-triangle chains, zero-weight cycles, graphs with forced duplicate edges and random graphs. "
-            "Only the scan count is judged (wrong answers are C11/C12's verdict).",
+            "Only the scan count is judged (wrong answers are C11/C12's verdict). "
+            "A search-and-amplify pass replays the tentative distances along the recorded scan order of small dense graphs; if a vertex is ever expanded before its distance is "
+            "final, that base graph is chained six times with shared sinks so that the wasted work exceeds the slack of the bound, and the bound is enforced there.",
             "Trusted: the wrapper sees every neighbourhood scan because the searches are templates over the graph type and call getOutNeighbours on it."),
 }
 
